@@ -1319,6 +1319,33 @@ static void chan_unlock_args(const Janet *argv, int32_t n) {
     }
 }
 
+static int chan_address_order(const void *a, const void *b) {
+    uintptr_t x = (uintptr_t) * (JanetChannel *const *) a;
+    uintptr_t y = (uintptr_t) * (JanetChannel *const *) b;
+    return (x > y) - (x < y);
+}
+
+/* Lock the channel of every clause (once per clause, the mutexes are recursive). Two threads that
+ * select over the same channels must take the mutexes in the same order whatever order their clauses
+ * are written in, or each ends up holding one and waiting for the other: address order. */
+static void chan_lock_args(const Janet *argv, int32_t n) {
+    JanetChannel **chans = janet_smalloc(sizeof(JanetChannel *) * (size_t) n);
+    for (int32_t i = 0; i < n; i++) {
+        int32_t len;
+        const Janet *data;
+        if (janet_indexed_view(argv[i], &data, &len) && len == 2) {
+            chans[i] = janet_channel_unwrap(janet_unwrap_abstract(data[0]));
+        } else {
+            chans[i] = janet_channel_unwrap(janet_unwrap_abstract(argv[i]));
+        }
+    }
+    qsort(chans, (size_t) n, sizeof(JanetChannel *), chan_address_order);
+    for (int32_t i = 0; i < n; i++) {
+        janet_chan_lock(chans[i]);
+    }
+    janet_sfree(chans);
+}
+
 JANET_CORE_FN(cfun_channel_choice,
               "(ev/select & clauses)",
               "Block until the first of several channel operations occur. Returns a "
@@ -1349,37 +1376,38 @@ JANET_CORE_FN(cfun_channel_choice,
         }
     }
 
+    /* All clauses are examined, and if need be registered, with every channel locked */
+    chan_lock_args(argv, argc);
+
     /* Check channels for immediate reads and writes */
     for (int32_t i = 0; i < argc; i++) {
         if (janet_indexed_view(argv[i], &data, &len) && len == 2) {
             /* Write */
             JanetChannel *chan = janet_channel_unwrap(janet_unwrap_abstract(data[0]));
-            janet_chan_lock(chan);
             if (chan->closed) {
-                janet_chan_unlock(chan);
-                chan_unlock_args(argv, i);
+                chan_unlock_args(argv, argc);
                 return make_close_result(chan);
             }
             if (janet_q_count(&chan->items) < chan->limit) {
                 Janet err;
                 int status = janet_channel_push_with_lock(chan, data[1], 1, &err);
                 chan_unlock_args(argv, i);
+                chan_unlock_args(argv + i + 1, argc - i - 1);
                 if (status == 2) janet_panicv(err);
                 return make_write_result(chan);
             }
         } else {
             /* Read */
             JanetChannel *chan = janet_channel_unwrap(janet_unwrap_abstract(argv[i]));
-            janet_chan_lock(chan);
             if (chan->closed) {
-                janet_chan_unlock(chan);
-                chan_unlock_args(argv, i);
+                chan_unlock_args(argv, argc);
                 return make_close_result(chan);
             }
             if (chan->items.head != chan->items.tail) {
                 Janet item;
                 int status = janet_channel_pop_with_lock(chan, &item, 1);
                 chan_unlock_args(argv, i);
+                chan_unlock_args(argv + i + 1, argc - i - 1);
                 if (status == 2) janet_panicv(item);
                 return make_read_result(chan, item);
             }
